@@ -198,7 +198,8 @@ def run(tier, seed, model_ok):
                         lines.append('.%s "%s"' % (kind, txt))
                         expected.append('%s: %s in line: %d' % ('info' if kind == 'message' else 'warning', txt, len(lines)))
                     elif k < .7 and depth < 2:
-                        name = 'i%d_%d.inc' % (depth, len(g.files) + j)
+                        g.n += 1
+                        name = 'i%d_%d.inc' % (depth, g.n)        # unique: every file is included exactly once
                         lines.append('.include "%s"' % name)
                         sub = os.path.join(os.path.dirname(path), name)
                         g.files[sub] = None
